@@ -1354,33 +1354,33 @@ ADVANCE_TO_APP_DATA:
         Activate the read cipher callbacks, so we will decrypt incoming
         data from now on.
  */
+#ifdef USE_DTLS
+        if (!(ACTV_VER(ssl, v_dtls_any)))
+#endif
+        {
+            if (ssl->fragMessage != NULL)
+            {
+                /* A handshake message that started before the
+                   ChangeCipherSpec cannot be completed after it: its
+                   first part was not protected (a Finished may not
+                   straddle the key change). */
+                ssl->err = SSL_ALERT_UNEXPECTED_MESSAGE;
+                psTraceErrr("ChangeCipherSpec inside a handshake message\n");
+                goto encodeResponse;
+            }
+#ifndef SSL_REHANDSHAKES_ENABLED
+            if (ssl->flags & SSL_FLAGS_READ_SECURE)
+            {
+                /* One handshake per connection: the read keys are
+                   active already, this is a second ChangeCipherSpec. */
+                ssl->err = SSL_ALERT_UNEXPECTED_MESSAGE;
+                psTraceErrr("Repeated ChangeCipherSpec\n");
+                goto encodeResponse;
+            }
+#endif
+        }
         if (ssl->hsState == SSL_HS_FINISHED)
         {
-#ifdef USE_DTLS
-            if (!(ACTV_VER(ssl, v_dtls_any)))
-#endif
-            {
-                if (ssl->fragMessage != NULL)
-                {
-                    /* A handshake message that started before the
-                       ChangeCipherSpec cannot be completed after it: its
-                       first part was not protected (a Finished may not
-                       straddle the key change). */
-                    ssl->err = SSL_ALERT_UNEXPECTED_MESSAGE;
-                    psTraceErrr("ChangeCipherSpec inside a handshake message\n");
-                    goto encodeResponse;
-                }
-#ifndef SSL_REHANDSHAKES_ENABLED
-                if (ssl->flags & SSL_FLAGS_READ_SECURE)
-                {
-                    /* One handshake per connection: the read keys are
-                       active already, this is a second ChangeCipherSpec. */
-                    ssl->err = SSL_ALERT_UNEXPECTED_MESSAGE;
-                    psTraceErrr("Repeated ChangeCipherSpec\n");
-                    goto encodeResponse;
-                }
-#endif
-            }
             if (sslActivateReadCipher(ssl) < 0)
             {
                 ssl->err = SSL_ALERT_INTERNAL_ERROR;
